@@ -1,6 +1,7 @@
 //! vh: correspondence harness.  `vh <component> <seed> <count> [args]` prints one line per case:
 //!   <input numbers>\t<implementation output numbers>\t<signature>
 //! The input numbers start with the component number understood by `mrun` (the extracted model).
+mod broadcast;
 mod codec;
 mod rng;
 mod transport;
@@ -73,6 +74,7 @@ fn main() {
     std::panic::set_hook(Box::new(|_| {}));
     match comp {
         "codec" => codec::run(seed, count, &extra, &mut out),
+        "broadcast" => broadcast::run(seed, count, &extra, &mut out),
         _ => {
             eprintln!("unknown component {comp}");
             std::process::exit(2);
